@@ -262,15 +262,15 @@ class WebSocket:
             Pre-initialized stream socket.
         """
         self.sock_opt.timeout = options.get("timeout", self.sock_opt.timeout)
+        self.sock, addrs = connect(
+            url, self.sock_opt, proxy_info(**options), options.pop("socket", None)
+        )
         # an unfinished frame or message of an earlier connection is not part of this one
         self.frame_buffer = frame_buffer(
             self._recv, self.frame_buffer.skip_utf8_validation
         )
         self.cont_frame = continuous_frame(
             self.cont_frame.fire_cont_frame, self.cont_frame.skip_utf8_validation
-        )
-        self.sock, addrs = connect(
-            url, self.sock_opt, proxy_info(**options), options.pop("socket", None)
         )
 
         try:
